@@ -28,6 +28,35 @@ def confirm_replay(pid: str, path: str) -> bool:
     return p.returncode == 1 and ("VIOLATION property=" + pid) in p.stdout
 
 
+HASHSEED_IS_PROPERTY = {"C02", "C05", "C06"}  # their statements promise the same result from run to run
+
+
+def digests_under_hashseed(engine_name: str, arg: Dict[str, Any], seeds: List[int], hashseed: str) -> Dict[int, str]:
+    """Runs engine.task for the seeds in a fresh interpreter under another PYTHONHASHSEED and
+    returns the digest of each task's event-log signatures (covers set literals and
+    comprehensions, which the `set` seam cannot intercept)."""
+    env = dict(os.environ)
+    env["PYTHONHASHSEED"] = hashseed
+    code = ("import sys, json, os, warnings; warnings.simplefilter('ignore'); sys.dont_write_bytecode=True\n"
+            "src=os.environ.get('VERIF_REPO_SRC')\n"
+            "if src: sys.path.insert(0, src)\n"
+            "sys.path.insert(0, %r)\n"
+            "import importlib\n"
+            "from sim.streams import digest\n"
+            "E = importlib.import_module(%r)\n"
+            "arg = json.loads(%r)\n"
+            "out = {}\n"
+            "for s in %r:\n"
+            "    r = E.task(s, arg)\n"
+            "    out[s] = digest([list(x[:-1]) for x in r['sigs']])\n"
+            "print('DIGESTS=' + json.dumps(out))\n") % (runner.VERIF, engine_name, json.dumps(arg), seeds)
+    p = subprocess.run([PY, "-c", code], env=env, capture_output=True, text=True, timeout=900)
+    for line in p.stdout.splitlines():
+        if line.startswith("DIGESTS="):
+            return {int(k): v for k, v in json.loads(line[len("DIGESTS="):]).items()}
+    raise RuntimeError("no digests from the fresh interpreter: " + p.stderr[-1500:])
+
+
 def run_check(pid: str, tier: str, base_seed: int, engine: Any, arg: Dict[str, Any], n_seeds: int, wall_budget: float,
               level: str, rule: str, assumptions: List[str], components: Dict[str, List[str]],
               per_task_s: int = 120, chunk: int = 4, extra_cov: Optional[Callable[[List[Dict[str, Any]]], Dict[str, Any]]] = None) -> int:
@@ -93,6 +122,35 @@ def run_check(pid: str, tier: str, base_seed: int, engine: Any, arg: Dict[str, A
             if exit_code == runner.EXIT_OK:
                 exit_code = runner.EXIT_HARNESS
 
+    # same seeds in a fresh interpreter under another PYTHONHASHSEED: same event logs?
+    hs_n = arg.get("hashseed_slice", 8 if tier == "quick" else 64)
+    hs_seeds = [r["seed"] for r in good[:hs_n]]
+    hs_compared = 0
+    if hs_seeds and not os.environ.get("VERIF_NO_HASHSEED_CHECK"):
+        try:
+            other = digests_under_hashseed(engine.__name__, {k: v for k, v in arg.items() if k != "sample"}, hs_seeds, "12345")
+            mine_d = {r["seed"]: digest([list(x[:-1]) for x in r["sigs"]]) for r in good[:hs_n]}
+            diff = [s_ for s_ in hs_seeds if other.get(s_) != mine_d[s_]]
+            hs_compared = len(hs_seeds)
+            if diff and pid in HASHSEED_IS_PROPERTY:
+                path = os.path.join(runner.VERIF, "replays", f"{pid}-{diff[0]}-hashseed.json")
+                runner.write_json(path, {"property": pid, "engine": engine.__name__, "seed": diff[0], "hashseeds": ["0", "12345"],
+                                         "arg": {k: v for k, v in arg.items() if k != "sample"},
+                                         "violation": {"class": "hashseed-dependent-outcome", "key": "hashseed-dependent-outcome",
+                                                       "detail": f"seed {diff[0]}: the same program and schedule give different event logs / files under PYTHONHASHSEED=0 and 12345"}})
+                lines.append(f"VIOLATION property={pid} replay={path}")
+                lines.append(f"  class=hashseed-dependent-outcome: {len(diff)} of {len(hs_seeds)} seeds differ between PYTHONHASHSEED=0 and 12345 (first {diff[0]})")
+                n_viol += 1
+                exit_code = runner.EXIT_VIOLATION
+            elif diff:
+                lines.append(f"HARNESS-NONDETERMINISM: {len(diff)} of {len(hs_seeds)} seeds give another event log under PYTHONHASHSEED=12345 (first {diff[0]})")
+                if exit_code == runner.EXIT_OK:
+                    exit_code = runner.EXIT_HARNESS
+        except Exception as e:
+            lines.append(f"HARNESS-ERROR: hash-seed cross-check could not run: {e!r}")
+            if exit_code == runner.EXIT_OK:
+                exit_code = runner.EXIT_HARNESS
+
     if harness:
         tmo = [r for r in harness if r["harness"] == "timeout"]
         err = [r for r in harness if r["harness"] == "error"]
@@ -131,6 +189,7 @@ def run_check(pid: str, tier: str, base_seed: int, engine: Any, arg: Dict[str, A
         "reach_probes": stats,
         "workload_classes": classes,
         "violation_keys": counts,
+        "hashseed_pairs_compared": hs_compared,
         "other_property_observations": others,
         "components_real": components["real"],
         "components_stub": components["stub"],
@@ -147,6 +206,14 @@ def run_check(pid: str, tier: str, base_seed: int, engine: Any, arg: Dict[str, A
 
 def run_replay(pid: str, engine: Any, path: str, quiet: bool = False) -> int:
     rp = json.load(open(path))
+    if "hashseeds" in rp:
+        a = digests_under_hashseed(rp["engine"], rp["arg"], [rp["seed"]], rp["hashseeds"][0])
+        b = digests_under_hashseed(rp["engine"], rp["arg"], [rp["seed"]], rp["hashseeds"][1])
+        if a != b:
+            print(f"VIOLATION property={pid} replay={path}")
+            return runner.EXIT_VIOLATION
+        print(f"{pid}: replay {path} did not reproduce a violation")
+        return runner.EXIT_OK
     want = rp.get("violation", {}).get("class")
     found = [v for v in engine.replay_check(pid, rp) if v["property"] == pid and (want is None or v["class"] == want)]
     if found:
